@@ -22,16 +22,16 @@ FMT_RULE = ("cases are generated from one splitmix64 state (VERIF_SEED, op, inde
             "over-weighting ASCII punctuation, blanks, tab/CR/LF and non-ASCII text, typed word (empty / prefix of a value / arbitrary / ending in E,ER,ERR), "
             "0-3 messages, a no-space set, environment switches; a case is non-trivial when it has at least one candidate or message; distinct = distinct input digest")
 
-HOOK_COMMITS = ["94169f7", "6cd8fd8", "2937117"]
+HOOK_COMMITS = ["94169f7", "6cd8fd8", "2937117", "cd2010e"]
 
 ENGINES = [
-    {"name": "extractor", "path": "extract/", "serves_properties": ["C02", "C03", "C04", "C05", "C06", "C08", "C09", "C10", "C11", "C12", "C13", "C14", "C15", "C16", "C17", "C19"],
+    {"name": "extractor", "path": "extract/", "serves_properties": ["C02", "C03", "C04", "C05", "C06", "C08", "C09", "C10", "C11", "C12", "C01", "C07", "C13", "C14", "C15", "C16", "C17", "C19"],
      "kind_free_text": "Go (go/ast): regenerates lean/Carapace/Gen (replacer tables, character sets, format strings, shell lists) from /repo on every run"},
-    {"name": "lean", "path": "lean/", "serves_properties": ["C02", "C03", "C04", "C05", "C06", "C08", "C09", "C10", "C11", "C12", "C13", "C14", "C15", "C16", "C17", "C19"],
+    {"name": "lean", "path": "lean/", "serves_properties": ["C02", "C03", "C04", "C05", "C06", "C08", "C09", "C10", "C11", "C12", "C01", "C07", "C13", "C14", "C15", "C16", "C17", "C19"],
      "kind_free_text": "Lean 4 library: Model (transcription of the code), Spec (readers, decoders, oracles), Props (theorems); compiled driver lean/Driver"},
-    {"name": "harness", "path": "harness/", "serves_properties": ["C02", "C03", "C04", "C05", "C06", "C08", "C09", "C10", "C11", "C12", "C13", "C14", "C15", "C16", "C17", "C19"],
+    {"name": "harness", "path": "harness/", "serves_properties": ["C02", "C03", "C04", "C05", "C06", "C08", "C09", "C10", "C11", "C12", "C01", "C07", "C13", "C14", "C15", "C16", "C17", "C19"],
      "kind_free_text": "Go module linking the real packages from /repo with -tags verif; generators and in-process execution, one JSON line per case"},
-    {"name": "runner", "path": "check", "serves_properties": ["C02", "C03", "C04", "C05", "C06", "C08", "C09", "C10", "C11", "C12", "C13", "C14", "C15", "C16", "C17", "C19"],
+    {"name": "runner", "path": "check", "serves_properties": ["C02", "C03", "C04", "C05", "C06", "C08", "C09", "C10", "C11", "C12", "C01", "C07", "C13", "C14", "C15", "C16", "C17", "C19"],
      "kind_free_text": "python3 (stdlib): orchestration, known-finding classification by input neutralisation, shrinking, evidence"},
 ]
 
@@ -174,6 +174,27 @@ PROPS.update({
             "level_text": ("Theorems about the listing logic of the model: `C16_entry_shape` (every candidate is the display folder, the entry name and `/` for a directory), `C16_entry_hidden`, `C16_entry_dir` (directories and links to directories with a trailing `/` whatever the filter), `C16_entry_file` (regular files only for ActionFiles and only with an allowed suffix), `C16_spec_hidden`; the cleaning of the typed directory part is a decided counterexample against the independent listing specification and a listed finding; the MultiParts stage is C11. "
                            "Correspondence: the model (lexical path functions + listing + MultiParts) is compared exactly with the real ActionFiles / ActionDirectories / Chdir on generated trees; oracle on the real result: set equality with `Spec.listing` of the directory the typed path denotes relative to the Context directory (never the process directory), no-space for directories, a message and no values for unreadable directories and invalid Chdir targets."),
             "level_note": "Trusted: Lean kernel + propext/Classical.choice/Quot.sound; the OS (the harness reads the denoted directory itself); the harness and generators. Modelled, not verified: internalActions.go actionPath, context.go Abs, path/filepath Clean/Dir/Base, MultiParts - bound by exact comparison on generated trees."},
+})
+
+
+PARSE_RULE = ("random cobra trees (1-4 commands nested arbitrarily, aliases, hidden / deprecated commands, DisableFlagParsing, non-interspersed commands; 0-4 flags per command of kind bool / count / string / stringSlice / optional-argument, shorthands from a pool of six letters so that chains collide, persistent flags, hidden / deprecated / shorthand-deprecated flags, one or two mutually exclusive groups; 0-2 positional completions + any, 0-1 dash completions + any - every slot registered with a distinct marker value) "
+              "x lines of 0-5 earlier words built by a grammar (`--f v`, `--f=v`, `-f v`, `-fv`, shorthand chains, `--`, empty words, lone `-`, positionals, sub-command names and aliases, unknown flags) and a current word (empty, `-`, `--`, partial names, chains, `--f=`, `-f=`); every offered candidate is appended to the line and the line is executed by the program's own parser on a fresh tree; non-trivial = at least one candidate was offered; distinct = distinct input digest")
+PARSE_ASSUME = ["the pflag fork's nargs / custom optarg delimiter / non-posix modes and cobra's TraverseChildren are not generated (posix fragment)", "commands accept arbitrary positional arguments (cobra.ArbitraryArgs), so that acceptance depends on flags and dispatch only",
+                "the default `completion` command is disabled; the default help command and flag are cobra's"]
+PARSE_NOTE = ("Trusted: Lean kernel + propext/Classical.choice/Quot.sound; cobra v1.9.1 and carapace-pflag v1.0.0 are the oracle (the program's own parser is executed, not modelled, for the slot / acceptance checks; `pflagShort` is a specification of parseSingleShortArg used by the stage-1 theorems and checked against the real parser by op `lookuparg`); the harness (tree builder, marker registration) and generators. "
+              "Modelled: internal/pflagfork LookupArg / Consumes, the offer rules of actionFlags and IsMutuallyExclusive. traverse itself is not modelled.")
+
+PROPS.update({
+    "C01": {"modules": ["Carapace.Props.C01"], "ops": [("parse", {"quick": 5000, "thorough": 250000}), ("lookuparg", {"quick": 4000, "thorough": 200000})],
+            "rule": PARSE_RULE, "assumptions": PARSE_ASSUME, "claimed": True, "engine": "parse",
+            "level_text": ("Partial proof + decision on the real code. Proved (stage 1 of DESIGN.md C01): `C01_short_agrees` - for every POSIX flag set in which no flag uses `=` as its shorthand and every shorthand chain the parser does not reject, carapace's LookupArg + Consumes expects the next word to be the value of flag f exactly when the program's parser takes it as f's value (induction over the chain; the hypothesis was forced by the proof and has a decided counterexample), `C01_long_attached`. The model of LookupArg/Consumes is compared exactly with internal/pflagfork, and the agreement is also evaluated against the real parser (op `lookuparg`). "
+                           "Not proved: the traverse loop and the descent into sub-commands. They are decided by the marker/landing oracle on the real code: every slot of a generated tree completes to a distinct marker; each offered candidate is appended to the line, the line is run by cobra/pflag on a fresh tree, and the marker must arrive in the slot (flag of the registering command, positional index, index after `--`) that produced it; the hidden `_carapace` command must not be offered. Known descent defects are listed findings."),
+            "level_note": PARSE_NOTE},
+    "C07": {"modules": ["Carapace.Props.C07"], "ops": [("parse", {"quick": 6000, "thorough": 300000})],
+            "rule": PARSE_RULE, "assumptions": PARSE_ASSUME, "claimed": True, "engine": "parse",
+            "level_text": ("`C07_offer_rule` (a flag is offered iff visible, not deprecated, not already given unless repeatable, and no member of its mutually-exclusive groups was given) with its corollaries `C07_hidden_never`, `C07_deprecated_never`, `C07_given_only_if_repeatable`, `C07_mutex`; `C07_chain_accepted` (inside a shorthand series whose letters so far take no argument, appending the shorthand of any existing flag gives a word the parser specification does not reject); the mutex scan counting the flag itself is a decided counterexample. The rule model is compared with the real offer of longhand names on generated trees (changed flags taken from the program's own parse). "
+                           "Decided on the real code: every offered flag name, appended (with a value if needed), is accepted by cobra/pflag and sets that very flag; hidden / deprecated flags and sub-commands are never offered; every offered sub-command name dispatches to that very sub-command."),
+            "level_note": PARSE_NOTE},
 })
 
 
